@@ -103,16 +103,47 @@ def r2_refresh_first(c, facts):
     evals = P.call_blocks(rf, 'Folder::eval')
     diags = P.call_blocks(rf, 'Workspace::diagnostics')
     sends = P.call_blocks(rf, 'Sender::send', 'Sender::<T>::send')
-    sw = rf.mir['blocks'][0]['term']
+    ridx = MF.defs_index(rf)
+    # `let was_stale = mem::replace(&mut state.is_stale, false); if !was_stale { return }`: test and clear in one
+    swapped = []
+    for b, t in P.call_blocks(rf, 'mem::replace', 'mem::take'):
+        a0 = t['args'][0] if t['args'] else None
+        isflag = a0 is not None and 'l' in a0 and any(kind == 'assign' and x['rv']['r'] == 'ref' and MF.field_path(x['rv']['place'])[-1:] == ['is_stale']
+                                                       for l in ({a0['l']} | MF.slice_back(rf, a0['l'], ridx, through_calls=False)['locals']) for kind, bi, x in ridx.get(l, []))
+        falsev = len(t['args']) < 2 or str(t['args'][1].get('val')) == '0'
+        if isflag and falsev:
+            swapped.append((b, t))
+    # the publishing loop as a closure handed to try_for_each / for_each
+    pub_closure = None
+    if not sends:
+        for cl in facts.closures_of(rf):
+            cs = P.call_blocks(cl, 'Sender::send', 'Sender::<T>::send') if cl.mir else []
+            if cs:
+                ad = [(b, t) for b, t in rf.calls() if callee_of(t) and P.strip(callee_of(t)['def']).split('::')[-1] in ('try_for_each', 'for_each') and any(a.get('ty', '') == '{closure@%s}' % cl.d.get('span', '?') for a in t['args'])]
+                if ad:
+                    pub_closure = (cl, cs, ad[0])
+                    sends = [ad[0]]
+    # the first switch of the function (after the swap, if any)
+    b0 = 0
+    hops = 0
+    while rf.mir['blocks'][b0]['term']['t'] != 'switch' and hops < 4 and rf.mir['blocks'][b0]['term'].get('target') is not None and rf.mir['blocks'][b0]['term']['t'] in ('call', 'goto'):
+        b0 = rf.mir['blocks'][b0]['term']['target']
+        hops += 1
+    sw = rf.mir['blocks'][b0]['term']
     ok_shape = sw['t'] == 'switch'
+    if swapped and not clear:
+        clear = [swapped[0][0]]
     stale_t = sw['otherwise'] if ok_shape else None
     fresh_t = [x for v, x in sw['targets'] if v == '0'][0] if ok_shape and sw['targets'] else None
     if not (clear and evals and diags and sends and ok_shape):
         c.bad(R, 'refresh:shape', 'refresh() no longer tests is_stale, clears it, evaluates folders, collects and sends diagnostics (clear=%d eval=%d diagnostics=%d send=%d)' % (len(clear), len(evals), len(diags), len(sends)))
         return
     # discr is a read of is_stale
-    reads = any(s['s'] == 'assign' and s['place']['l'] == sw['discr'].get('l') and MF.field_path(s['rv'].get('op', {'proj': []}))[-1:] == ['is_stale'] for s in rf.mir['blocks'][0]['stmts'])
-    if reads and all(rf.dominates(stale_t, b) for b in clear) and not any(b in rf.reachable_from(fresh_t) for b in clear):
+    reads = any(s['s'] == 'assign' and s['place']['l'] == sw['discr'].get('l') and MF.field_path(s['rv'].get('op', {'proj': []}))[-1:] == ['is_stale'] for s in rf.mir['blocks'][b0]['stmts'])
+    by_swap = bool(swapped) and 'l' in sw['discr'] and (swapped[0][1]['dest']['l'] == sw['discr']['l'] or swapped[0][1]['dest']['l'] in MF.slice_back(rf, sw['discr']['l'], ridx, through_calls=False)['locals'])
+    if by_swap:
+        c.ok(R, {'refresh': 'tests the value it swaps out of is_stale (cleared by the test itself)'})
+    elif reads and all(rf.dominates(stale_t, b) for b in clear) and not any(b in rf.reachable_from(fresh_t) for b in clear):
         c.ok(R, {'refresh': 'clears is_stale on the stale path only'})
     else:
         c.bad(R, 'refresh:clear-on-wrong-path', 'refresh() clears is_stale outside the stale path')
@@ -136,7 +167,13 @@ def r2_refresh_first(c, facts):
     # every entry of the diagnostics map is published, the empty ones too (an empty list is what clears a stale diagnostic)
     sb = sends[0][0]
     nxt = [(b, t) for b, t in P.call_blocks(rf, 'Iterator::next') if sb in rf.reachable_from(t['target']) and b in rf.reachable_from(sb)]
-    if not nxt:
+    if pub_closure is not None:
+        cl, cs, ad = pub_closure
+        if P.success_return_reachable(cl, 0, {b for b, _ in cs}):
+            c.bad(R, 'refresh:diagnostics-entry-skipped', 'the closure refresh() applies to every entry of the diagnostics map can succeed without publishing it')
+        else:
+            c.ok(R, {'refresh': 'publishes every entry of the diagnostics map (closure applied to each entry)'})
+    elif not nxt:
         c.bad(R, 'refresh:publish-loop-not-found', 'refresh() no longer publishes inside a loop over the diagnostics map')
     else:
         nb, nt = nxt[0]
